@@ -163,6 +163,20 @@ def src(n, keep_casts=False):
     return "<%s>" % k
 
 
+def _leaf_cond(cond, tk):
+    """clang reports the whole `a && b` expression as the condition of an if/while/for block even
+    though that block only evaluates the last operand; normalise to the operand decided here."""
+    if cond is None or tk == "SwitchStmt":
+        return cond
+    n = cond
+    while True:
+        x = n.strip()
+        if x is not None and x.k == "BinaryOperator" and x.op in ("&&", "||") and x.c[1] is not None:
+            n = x.c[1]
+        else:
+            return n
+
+
 class Block:
     __slots__ = ("id", "elems", "term", "tk", "cond", "label", "loop", "succs", "preds", "noreturn",
                  "synth")
@@ -194,6 +208,7 @@ class CFG:
             B.term = nodes.get(b.get("term", -1))
             B.tk = b.get("tk")
             B.cond = nodes.get(b.get("cond", -1))
+            B.cond = _leaf_cond(B.cond, b.get("tk"))
             B.label = nodes.get(b.get("label", -1))
             B.loop = nodes.get(b.get("loop", -1))
             B.noreturn = bool(b.get("noreturn"))
